@@ -14,10 +14,15 @@ from sa.core import Repo, local_binding_order  # noqa: E402
 
 repo = Repo(os.environ.get('SA_REPO', '/repo'))
 out = {}
+kinds_out = {}
 for q, fn in repo.all_funcs():
-    names = local_binding_order(fn)
+    k = {}
+    names = local_binding_order(fn, k)
     if names:
         out[q] = names
+        kinds_out[q] = k
+with open(os.path.join(HERE, 'refkinds.json'), 'w') as f:
+    json.dump(kinds_out, f, indent=0, sort_keys=True)
 with open(os.path.join(HERE, 'refnames.json'), 'w') as f:
     json.dump(out, f, indent=0, sort_keys=True)
 print('refnames.json: %d functions' % len(out))
